@@ -47,7 +47,29 @@ func vApplyBatch(db *DB, kp *vPool, m *vModel, maxOps int, id string) {
 
 // vStep performs one operation of the alphabet on db and the model; returns the (possibly reopened) db.
 func vStep(db *DB, opts Options, kp *vPool, m *vModel, ops []int, id string) *DB {
-	switch ops[verifChoice("op", len(ops))] {
+	op := ops[verifChoice("op", len(ops))]
+	if verifParam("emptykey") == 1 && (op == vOpPut || op == vOpDelete) && verifChoice("empty-key", 2) == 1 {
+		// key length 0: the operation is rejected and changes nothing (the callers compare the mapping next)
+		var ek []byte
+		if verifChoice("nil-key", 2) == 1 {
+			ek = []byte{}
+		}
+		if op == vOpPut {
+			verifAssert(db.Put(ek, verifValue("v")) == ErrKeyIsEmpty, id+".empty-key-put-accepted")
+		} else {
+			verifAssert(db.Delete(ek) == ErrKeyIsEmpty, id+".empty-key-delete-accepted")
+		}
+		_, gerr := db.Get(ek)
+		verifAssert(gerr == ErrKeyIsEmpty, id+".empty-key-get")
+		b := db.NewBatch(DefaultBatchOptions)
+		verifAssert(b.Put(ek, []byte{1}) == ErrKeyIsEmpty && b.Delete(ek) == ErrKeyIsEmpty, id+".empty-key-batch-accepted")
+		_, gerr = b.Get(ek)
+		verifAssert(gerr == ErrKeyIsEmpty, id+".empty-key-batch-get")
+		verifAssert(b.Commit() == nil, id+".empty-batch-commit-err")
+		verifReach("empty-key-rejected")
+		return db
+	}
+	switch op {
 	case vOpPut:
 		ki := verifChoice("ki", len(kp.keys))
 		v := verifValue("v")
